@@ -324,27 +324,18 @@ theorem even_combination_square (n : Nat) (hn : 0 < n) (slots : List Int) (rels 
 `assert_eq!`, `try_factor`) yields proper divisors only. -/
 theorem kernel_step_proper (n : Nat) (slots : List Int) (rels : List Relation) (eq : List Nat)
     (a b p q : Nat) (h : kernelStep n slots rels eq = .ok (a, b, some (p, q))) :
-    p * q = n ∧ 1 < p ∧ 1 < q := by
-  unfold kernelStep at h
-  simp only [bind_eq_ok] at h
-  obtain ⟨acc, _, fs, _, ab, hab, h⟩ := h
-  split at h
-  · simp [throw_ne_ok] at h
-  · simp only [bind_eq_ok, pure_eq_ok, Prod.mk.injEq] at h
-    obtain ⟨d, hd, rfl, rfl, rfl⟩ := h
-    by_cases hn : 0 < n
-    · obtain ⟨_, _, ha, hb⟩ := combineAB_spec (a := ab.1) (b := ab.2) hab hn
-      obtain ⟨res, h1, h2⟩ := tryFactor_proper' ha hb
-      rw [h1] at hd
-      cases hd
-      exact h2 p q rfl
-    · -- n = 0: `fromInt` (debug assertion x < n) cannot have passed
-      exfalso
-      unfold combineAB at hab
-      simp only [bind_eq_ok] at hab
-      obtain ⟨_, _, _, _, cm, hcm, _⟩ := hab
-      have := (fromInt_ok hcm).2
-      omega
+    p * q = n ∧ 1 < p ∧ 1 < q :=
+  kernelStep_proper h
+
+/-- `final_step` as a whole (model of everything around the kernel solver: occurrence table,
+stable sort, relation filter, kernel loop with the `pseudoprime` early exit, sort + dedup): for ANY
+relations, ANY factor base, ANY kernel vectors (even wrong ones) and ANY primality oracle, every
+element of the returned list is a divisor `d` of `n` with `1 < d < n`. -/
+theorem final_step_proper (n : Nat) (fb : List Nat) (rels : List Relation)
+    (kernel : List (List Nat)) (isPrime : Nat → Bool) (slots : List Int) (cnt : Nat)
+    (divs : List Nat) (h : finalStep n fb rels kernel isPrime = .ok (slots, cnt, divs)) :
+    ∀ d ∈ divs, 1 < d ∧ d < n ∧ d ∣ n :=
+  finalStep_proper h
 
 /-- non-vacuity: two relations modulo 15 whose product has even exponents; the step finds 3·5. -/
 example :
@@ -352,8 +343,9 @@ example :
       [{ x := 7, cofactor := 1, cyclelen := 1, factors := [(2, 2)] },
        { x := 2, cofactor := 1, cyclelen := 1, factors := [(2, 2)] }]
     (∀ r ∈ rels, FinalRel 15 r) ∧
-    (kernelStep 15 [2] rels [0, 1]).toOption = some (14, 4, some (3, 5)) := by
-  refine ⟨?_, by decide⟩
+    (kernelStep 15 [2] rels [0, 1]).toOption = some (14, 4, some (3, 5)) ∧
+    (finalStep 15 [2] rels [[0, 1]] (fun _ => true)).toOption = some ([2], 2, [3, 5]) := by
+  refine ⟨?_, by decide, by decide +kernel⟩
   intro r hr
   simp only [List.mem_cons, List.not_mem_nil, or_false] at hr
   rcases hr with rfl | rfl
